@@ -6,7 +6,7 @@ booleans are enumerated exhaustively (path by path), so a function is decided on
 complete finite abstract input space.  Anything the interpreter does not understand
 raises Unsupported (-> exit 2), never a verdict."""
 from .extract import AnalysisBroken
-from .sem import term, unwrap, real_args, LOCAL_KINDS
+from .sem import term, unwrap, real_args, LOCAL_KINDS, is_copy_construct
 from .tables import switch_groups
 
 
@@ -498,7 +498,8 @@ class GenericInterp(Interp):
             vals = tuple(_freeze(self.ev(x, env)) for x in args)
             if self.watch(n):
                 self.log.append(('new ' + (cal.get('cls') or '?'),) + vals)
-            if len(vals) == 1 and ((cal.get('cls') or '').startswith('std::') or (cal.get('cls') or '').startswith('boost::optional')):
+            cls = cal.get('cls') or ''
+            if len(vals) == 1 and (cls.startswith(('std::basic_string', 'std::shared_ptr', 'std::function', 'std::unique_ptr', 'boost::optional')) or is_copy_construct(n)):
                 return vals[0]
             return Opaque(('new', cal.get('cls')) + vals)
         if k == 'ref' and n.decl.get('kind') not in LOCAL_KINDS and n.decl.get('kind') != 'enumconst':
@@ -516,8 +517,10 @@ class GenericInterp(Interp):
             if n.get('op') == '*':
                 return Opaque(('deref', _freeze(v)))
             return Opaque(('u' + n.get('op'), _freeze(v)))
-        if k in ('new', 'delete', 'sizeof', 'valueinit'):
+        if k in ('new', 'delete', 'sizeof', 'valueinit', 'typeid'):
             return Opaque((k, n.id))
+        if k == 'other' and n.get('cls') in ('PredefinedExpr',):
+            return Opaque(('predefined', n.id))
         return NotImplemented
 
 
